@@ -1,4 +1,5 @@
 import PttVerif.Proofs.C02
+import PttVerif.Proofs.C02Pw
 /-
 C02 — Password hashes are crypt(3) DES and verify only the right password.
 Property theorems only (helper lemmas live in Proofs/C02.lean; the model in Model/C02.lean; the hand-written
@@ -21,6 +22,15 @@ What is proved, against the clauses of the property
          (`Spec.crypt3` is the executable textbook definition).  It is what `fcrypt_eq_crypt3_partial` below
          stands in for; the equality itself is judged on every run by the oracle (libc crypt(3)) and by running
          `Spec.crypt3` next to the implementation on every generated alphabet-salt pair (driver op `spec`).
+         Of its proof (every step except the S-box lookup is GF(2)-linear; Proofs/C02Lin.lean is a reflective
+         checker for such word circuits: two checked circuits that agree on the unit vectors agree everywhere) the
+         following parts ARE closed, each for ALL inputs: the whole key schedule for every password
+         (`key_schedule_eq_textbook`: bit-swap PC-1, the 16 rotations and the `skb` lookups = PC-1, left shifts, PC-2),
+         that the schedule words deliver block B_b of the round key to S-box b (`round_key_reaches_sbox`), that the
+         rotated data word delivers block b of E(R) (`expansion_eq_E`), the final permutation (`final_perm_eq_FP`),
+         IP∘FP = id (`ip_fp_cancel`).  Missing: the salt perturbation of E inside `dEncrypt` against `Spec.saltE`, the
+         recombination `rho(P(S-boxes))` = or of the eight `SPtrans` entries (table exactness gives each entry), the
+         induction over 25×16 rounds and the 6-bit output packing.
  (b) a fresh hash verifies: `check_gen`, for every value of the random source.
  (c) only the low seven bits of the first eight bytes up to a NUL matter: `fcrypt_effective_key`,
      `fcrypt_effective_key8`, `checkPasswd_same_key`.
@@ -149,6 +159,42 @@ example : ∃ p s c0 c1, s[0]? = some c0 ∧ s[1]? = some c1 ∧ c0 ∈ Spec.alp
     Fcrypt p s = .ok (Spec.crypt3 p c0 c1) :=
   ⟨[48, 49, 50, 51, 52, 53, 54, 55, 56, 57, 48, 49], [65, 65], 65, 65, rfl, rfl, by decide, by decide, by decide +kernel⟩
 
+
+/-! #### (a) stage 4: the parts of `fcrypt_eq_crypt3` that are proved, each for all inputs -/
+
+/-- for every password, the 32 schedule words `desSetKey` computes from the key block `cFcrypt` builds are the
+sixteen textbook round keys (PC-1, left rotations by the FIPS shift schedule, PC-2) of the crypt(3) key of that
+password, laid out as `kw0`/`kw1`. -/
+theorem key_schedule_eq_textbook (p : List Nat) :
+    desSetKey (mkKey (if p.length > 8 then p.take 8 else p)) =
+      Lin.ksWords (Spec.keySchedule (Spec.keyOfBytes (Spec.cstr8 p))) := by
+  rw [Lin.mkKey_eq_crypt3_key, Lin.desSetKey_eq_keySchedule _ (Lin.keyOfBytes_lt p)]
+
+/-- the same for an arbitrary 64-bit key block. -/
+theorem desSetKey_eq_keySchedule (K : Nat) (hK : K < 2 ^ 64) :
+    desSetKey (Lin.bytesBE K) = Lin.ksWords (Spec.keySchedule K) := Lin.desSetKey_eq_keySchedule K hK
+
+example : ∃ p, Spec.keySchedule (Spec.keyOfBytes (Spec.cstr8 p)) ≠ List.replicate 16 0 := ⟨[65], by decide +kernel⟩
+
+/-- the layout is the one `dEncrypt` reads: the six key bits it xors into the index of `SPtrans[b]` are block
+`B_{b+1}` (bits 6b+1 … 6b+6) of the round key, first bit least significant. -/
+theorem round_key_reaches_sbox (K b : Nat) (hK : K < 2 ^ 48) (hb : b < 8) :
+    Lin.keyIdx K b = Spec.revBits 6 ((K >>> (6 * (7 - b))) &&& 63) := Lin.keyIdx_eq_block K b hK hb
+
+/-- the six data bits `dEncrypt` feeds to `SPtrans[b]` (salt 0) are block `b+1` of the textbook expansion `E(R)`. -/
+theorem expansion_eq_E (R b : Nat) (hR : R < 2 ^ 32) (hb : b < 8) :
+    Lin.dataIdx R b = Spec.revBits 6 ((Spec.permF Spec.E 32 R >>> (6 * (7 - b))) &&& 63) := Lin.dataIdx_eq_Eblock R b hR hb
+
+/-- the tail of `body` is the textbook final permutation: the eight output bytes, read big-endian, are `FP(A‖B)` for
+the pre-output halves held in the implementation's representation `rho`. -/
+theorem final_perm_eq_FP (A B : Nat) (hA : A < 2 ^ 32) (hB : B < 2 ^ 32) :
+    Lin.outVal (finalPerm (Lin.rho A, Lin.rho B)) = Spec.permF Spec.FP 64 (A * 4294967296 + B) :=
+  Lin.finalPerm_eq_FP A B hA hB
+
+/-- IP and FP cancel, so chaining 25 encryptions without re-permuting (as `body` does) is sound. -/
+theorem ip_fp_cancel (x : Nat) (hx : x < 2 ^ 64) : Spec.permF Spec.IP 64 (Spec.permF Spec.FP 64 x) = x :=
+  Lin.ip_fp_cancel x hx
+
 /-! #### (c) the effective key -/
 
 /-- two passwords with the same effective key (first eight bytes, up to the first NUL, low seven bits each) hash
@@ -189,16 +235,20 @@ theorem checkPasswd_iff (e p : List Nat) : CheckPasswd e p = .ok true ↔ Fcrypt
   | error x => simp [bind, Except.bind]
   | ok r => simp [bind, Except.bind, pure, Except.pure]
 
-/-- `GenPasswd` of a non-empty password never panics; with a leading NUL it returns the all-zero hash. -/
-theorem genPasswd_ok (r : Nat) (p : List Nat) (hp : p ≠ []) :
+/-- `GenPasswd` never panics (since repo fix cf9020f also not on the empty slice); an empty password or a leading
+NUL gives the all-zero hash, otherwise the result is the `Fcrypt` hash under the salt drawn from `r`. -/
+theorem genPasswd_ok (r : Nat) (p : List Nat) :
     ∃ h, GenPasswdWith r p = .ok h ∧ h.length = 14 ∧
-      (p[0]? ≠ some 0 → Fcrypt p [r &&& 0x7f, (r >>> 8) &&& 0x7f] = .ok h) := by
-  obtain ⟨p0, ps, rfl⟩ := List.exists_cons_of_ne_nil hp
+      (p ≠ [] → p[0]? ≠ some 0 → Fcrypt p [r &&& 0x7f, (r >>> 8) &&& 0x7f] = .ok h) ∧
+      ((p = [] ∨ p[0]? = some 0) → h = List.replicate 14 0) := by
   have hP : ptttypePASSLEN = 14 := passlen_eq.2
   unfold GenPasswdWith
+  cases p with
+  | nil => exact ⟨_, by simp [pure, Except.pure]; rfl, by simp [hP], by simp, by simp [hP]⟩
+  | cons p0 ps =>
   by_cases hz : p0 = 0
   · subst hz
-    exact ⟨_, by simp [idx, bind, Except.bind, pure, Except.pure]; rfl, by simp [hP], by simp⟩
+    exact ⟨_, by simp [idx, bind, Except.bind, pure, Except.pure]; rfl, by simp [hP], by simp, by simp [hP]⟩
   · have lt : ∀ x : Nat, saltChar (x &&& 0x7f) < 128 := by
       intro x
       have : x &&& 0x7f < 128 := by rw [show (0x7f : Nat) = 2 ^ 7 - 1 from rfl, Nat.and_two_pow_sub_one_eq_mod]; omega
@@ -210,26 +260,31 @@ theorem genPasswd_ok (r : Nat) (p : List Nat) (hp : p ≠ []) :
     | error e => exact absurd ⟨e, hf⟩ hno
     | ok h =>
       have hl := (fcrypt_format _ _ _ hf).1
-      refine ⟨h, ?_, hl, fun _ => rfl⟩
-      simp only [idx, List.getElem?_cons_zero, bind, Except.bind, hz, if_false, hf, pure, Except.pure]
+      refine ⟨h, ?_, hl, fun _ _ => rfl, by simp [hz]⟩
+      simp only [List.length_cons, Nat.succ_ne_zero, if_false, idx,
+        List.getElem?_cons_zero, bind, Except.bind, hz, hf, pure, Except.pure]
       rw [hP, copyInto_of_le _ _ (by omega), hl]; simp
 
-/-- `GenPasswd` panics exactly on the empty slice (`passwd[0]`), for every value of the random source. -/
-theorem genPasswd_panics_iff (r : Nat) (p : List Nat) : (∃ e, GenPasswdWith r p = .error e) ↔ p = [] := by
-  constructor
-  · rintro ⟨e, he⟩
-    apply Classical.byContradiction
-    intro hp
-    obtain ⟨h, hh, _⟩ := genPasswd_ok r p hp
-    rw [hh] at he; cases he
-  · rintro rfl; exact ⟨.panic, rfl⟩
+/-- the guard before repo fix cf9020f (`if passwd[0] == 0`): `GenPasswd` panicked on the empty slice. -/
+def GenPasswdWithPreFix (num : Nat) (passwd : List Nat) : M (List Nat) := do
+  let p0 ← idx passwd 0
+  if p0 = 0 then pure (List.replicate ptttypePASSLEN 0) else
+  let result ← Fcrypt passwd [num &&& 0x7f, (num >>> 8) &&& 0x7f]
+  pure (copyInto ptttypePASSLEN result)
+
+/-- the before-fix witness: every value of the random source, empty password. -/
+theorem genPasswd_prefix_panics (r : Nat) : GenPasswdWithPreFix r [] = .error .panic := rfl
+
+/-- `GenPasswd` is total: no password and no value of the random source makes it panic or diverge. -/
+theorem genPasswd_total (r : Nat) (p : List Nat) : ∃ h, GenPasswdWith r p = .ok h :=
+  let ⟨h, hh, _⟩ := genPasswd_ok r p; ⟨h, hh⟩
 
 /-- clause (b): for every value `r` of the random source, the hash generated for a password whose first byte is
 not NUL verifies against that password. -/
 theorem check_gen (r : Nat) (p : List Nat) (hp : p ≠ []) (h0 : p[0]? ≠ some 0) :
     ∃ h, GenPasswdWith r p = .ok h ∧ CheckPasswd h p = .ok true := by
-  obtain ⟨h, hg, _, hf⟩ := genPasswd_ok r p hp
-  exact ⟨h, hg, (checkPasswd_iff h p).mpr (fcrypt_salt_idem _ _ _ (hf h0))⟩
+  obtain ⟨h, hg, _, hf, _⟩ := genPasswd_ok r p
+  exact ⟨h, hg, (checkPasswd_iff h p).mpr (fcrypt_salt_idem _ _ _ (hf hp h0))⟩
 
 example : ∃ r p, p ≠ [] ∧ p[0]? ≠ some 0 ∧ GenPasswdWith r p = .ok [44, 1, 107, 53, 103, 79, 105, 107, 47, 85, 114, 89, 54, 0] :=
   ⟨300, [0x41, 0x42], by decide, by decide, by decide +kernel⟩
@@ -238,12 +293,13 @@ example : ∃ r p, p ≠ [] ∧ p[0]? ≠ some 0 ∧ GenPasswdWith r p = .ok [44
 theorem checkPasswd_same_key (e p p' : List Nat) (h : effKey8 p = effKey8 p') : CheckPasswd e p = CheckPasswd e p' := by
   unfold CheckPasswd; rw [fcrypt_effective_key8 p p' e h]
 
-/-- a password whose first byte is NUL gets the all-zero hash, which no password verifies against
-(the re-hash starts with the salt characters "AA"). -/
-theorem empty_hash_never_verifies (r : Nat) (ps p' : List Nat) :
-    GenPasswdWith r (0 :: ps) = .ok (List.replicate 14 0) ∧ CheckPasswd (List.replicate 14 0) p' = .ok false := by
+/-- the empty password and a password whose first byte is NUL get the all-zero hash, which no password verifies
+against (the re-hash starts with the salt characters "AA"). -/
+theorem empty_hash_never_verifies (r : Nat) (p p' : List Nat) (hp : p = [] ∨ p[0]? = some 0) :
+    GenPasswdWith r p = .ok (List.replicate 14 0) ∧ CheckPasswd (List.replicate 14 0) p' = .ok false := by
   constructor
-  · simp [GenPasswdWith, idx, bind, Except.bind, pure, Except.pure, passlen_eq.2]
+  · obtain ⟨h, hg, _, _, hz⟩ := genPasswd_ok r p
+    rw [hg, hz hp]
   · unfold CheckPasswd
     cases hf : Fcrypt p' (List.replicate 14 0) with
     | error e =>
